@@ -324,3 +324,119 @@ pub fn gen_partition(r: &mut Rng, n: usize, style: usize) -> Vec<usize> {
     }
     cuts
 }
+
+// ---------------------------------------------------------------------------------------------
+// SGR-rich texts (C07, C14, C18)
+// ---------------------------------------------------------------------------------------------
+const SINGLES: &[&str] = &[
+    "0", "1", "2", "3", "4", "7", "8", "9", "21", "30", "31", "34", "37", "39", "40", "41", "47", "49", "90", "91", "97", "100", "104", "107",
+    "", "00", "01", "004", "031", "5", "6", "22", "23", "24", "25", "27", "28", "29", "59", "10", "11", "26", "50", "51", "60", "73", "99", "108", "255",
+];
+
+/// one well-formed attribute group; returns (text, number of parameters)
+pub fn gen_group(r: &mut Rng) -> (String, usize) {
+    match r.below(12) {
+        0 | 1 => {
+            let t = *r.pick(&["38", "48", "58"]);
+            let n = *r.pick(&[0usize, 1, 7, 8, 15, 16, 100, 200, 231, 232, 255]);
+            let n = if r.chance(1, 3) { r.below(256) } else { n };
+            if r.chance(1, 2) { (format!("{t};5;{n}"), 3) } else { (format!("{t}:5:{n}"), 1) }
+        }
+        2 | 3 => {
+            let t = *r.pick(&["38", "48", "58"]);
+            let (a, b, c) = (r.below(256), r.below(256), r.below(256));
+            if r.chance(1, 2) { (format!("{t};2;{a};{b};{c}"), 5) } else { (format!("{t}:2:{a}:{b}:{c}"), 1) }
+        }
+        4 => (format!("4:{}", r.below(6)), 1),
+        5 => {
+            // leading zeros inside an extended colour
+            let t = *r.pick(&["38", "48", "58"]);
+            (format!("{t};05;0{}", r.below(100)), 3)
+        }
+        _ => ((*r.pick(SINGLES)).to_string(), 1),
+    }
+}
+
+pub fn gen_sgr(r: &mut Rng, out: &mut Vec<u8>) {
+    let want = *r.pick(&[1usize, 1, 1, 2, 2, 3, 4, 6, 12, 30]);
+    let mut params = 0;
+    let mut groups: Vec<String> = Vec::new();
+    for _ in 0..want {
+        let (g, n) = gen_group(r);
+        if params + n > 32 {
+            break;
+        }
+        params += n;
+        groups.push(g);
+    }
+    if groups.len() == 1 && groups[0].is_empty() && r.chance(1, 2) {
+        groups.clear();
+    }
+    out.extend_from_slice(b"\x1b[");
+    out.extend_from_slice(groups.join(";").as_bytes());
+    out.push(b'm');
+}
+
+/// a CSI that is NOT an SGR: other final byte, or final 'm' with a private marker / intermediate
+fn gen_other_csi(r: &mut Rng, out: &mut Vec<u8>) {
+    out.extend_from_slice(b"\x1b[");
+    let marked = r.chance(1, 3);
+    if marked && r.chance(1, 2) {
+        out.push(*r.pick(b"<=>?"));
+    }
+    for i in 0..r.below(4) {
+        if i > 0 {
+            out.push(b';');
+        }
+        out.extend_from_slice(r.below(120).to_string().as_bytes());
+    }
+    let inter = marked && (out.len() == 2 || r.chance(1, 2));
+    if inter || (marked && !out[2..].iter().any(|b| b"<=>?".contains(b))) {
+        out.push(*r.pick(b" !\"$"));
+    }
+    if marked {
+        out.push(b'm');
+    } else {
+        out.push(*r.pick(b"ABCDHJKSTfhlnrsu"));
+    }
+}
+
+pub fn gen_styled_text(r: &mut Rng, target: usize, xmlish: bool) -> Vec<u8> {
+    let mut out = Vec::new();
+    while out.len() < target {
+        match r.below(20) {
+            0..=6 => {
+                for _ in 0..r.range(1, 8) {
+                    out.push(r.range(0x20, 0x7e) as u8);
+                }
+            }
+            7 | 8 => {
+                for _ in 0..r.range(1, 3) {
+                    push_char(&mut out, gen_char(r));
+                }
+            }
+            9 => {
+                // whitespace-only text (a run consisting of blanks must keep its own style)
+                for _ in 0..r.range(1, 3) {
+                    out.push(*r.pick(&[b'\n', b'\t', b'\r', b' ', b' ']));
+                }
+            }
+            10..=15 => gen_sgr(r, &mut out),
+            16 => gen_other_csi(r, &mut out),
+            17 => gen_osc(r, &mut out, Flavor::Utf8),
+            18 => gen_esc(r, &mut out),
+            _ => {
+                if xmlish {
+                    out.extend_from_slice(*r.pick(&[&b"<a&b>"[..], b"\"q\"", b"'", b"&amp;", b"]]>", b"\r\n", b"<!--"]));
+                } else {
+                    out.push(*r.pick(&[0u8, 7, 8, 0x7f, 0x18]));
+                }
+            }
+        }
+    }
+    if std::str::from_utf8(&out).is_err() {
+        out = String::from_utf8_lossy(&out).into_owned().into_bytes();
+    }
+    out
+}
+
